@@ -13,6 +13,7 @@ class Dag:
     def __init__(self, body):
         self.body = body
         self.memo = {}
+        self._open = {}
 
     def expr(self, o, depth=0):
         """operand -> tree"""
@@ -85,8 +86,17 @@ class Dag:
         if len(ds) == 0 and not pw:
             r = ("undef", l)
         elif len(ds) == 1 and not pw:
-            self.memo[l] = ("cycle", l)
-            r = self.rvalue(ds[0], depth + 1)
+            # no cycle marker for a single-definition local: every data cycle of a valid body runs through a multiply-defined (loop-carried) local, which
+            # is cut by its phi marker below; cutting here instead would leave ('cycle', l) inside the memoised alternatives of that phi whenever the
+            # walk happened to enter the cycle at a named temporary (`let lap = x / N;` used twice).  The depth bound stays as the safety net.
+            n_open = self._open.get(l, 0)
+            if n_open >= 2:
+                return ("cycle", l)
+            self._open[l] = n_open + 1
+            try:
+                r = self.rvalue(ds[0], depth + 1)
+            finally:
+                self._open[l] = n_open
         else:
             self.memo[l] = ("phi", l, body.lname(l))
             alts = []
@@ -241,3 +251,27 @@ def canon_cmp(op, a, b):
         if ca[0] == "const" and isinstance(ca[1], int): return ("lt", ("const", ca[1] - 1), b)
         if cb[0] == "const" and isinstance(cb[1], int): return ("lt", a, ("const", cb[1] + 1))
     return (op.lower(), a, b)
+
+
+def canon_branch(c):
+    """polarity-aware canonical form of a comparison branch (op, a, b, true_target, false_target):
+    returns (kind, x, y, T, F) with kind 'lt' (T is taken iff x < y) or 'eq' (T is taken iff x == y).
+    `a >= b` is `!(a < b)`, `a <= b` is `!(b < a)`, `a != b` is `!(a == b)`: the negation swaps the targets, so `if full {reject} else {accept}` and
+    `if !full {accept} else {reject}` have one form.  With an integer literal on one side the literal goes left: `x < c` is `!(c-1 < x)`."""
+    op, a, b, tt, ft = c
+    if op == "Lt": k, x, y, T, Fl = "lt", a, b, tt, ft
+    elif op == "Gt": k, x, y, T, Fl = "lt", b, a, tt, ft
+    elif op == "Ge": k, x, y, T, Fl = "lt", a, b, ft, tt
+    elif op == "Le": k, x, y, T, Fl = "lt", b, a, ft, tt
+    elif op == "Eq": k, x, y, T, Fl = "eq", a, b, tt, ft
+    elif op == "Ne": k, x, y, T, Fl = "eq", a, b, ft, tt
+    else: return None
+    if k == "lt":
+        cy = strip_casts(y); cx = strip_casts(x)
+        if cy[0] == "const" and isinstance(cy[1], int) and not (cx[0] == "const" and isinstance(cx[1], int)):
+            x, y, T, Fl = ("const", cy[1] - 1), x, Fl, T
+    else:
+        cx = strip_casts(x)
+        if not (cx[0] == "const") and strip_casts(y)[0] == "const":
+            x, y = y, x
+    return (k, x, y, T, Fl)
